@@ -151,13 +151,16 @@ class RefKFAC:
             mA, mG = [], []
             for recs in recs_per_rank:
                 a, g = recs[n]
+                mA.append(second_moment(input_rows(L.module, self._quant(a))))
+                if g is None:
+                    continue               # a forward-only pass: an input was seen, no output gradient
                 g = self._quant(g)
                 if self.grad_scale is not None:
                     g = g / self.grad_scale
-                mA.append(second_moment(input_rows(L.module, self._quant(a))))
                 mG.append(second_moment(gout_rows(L.module, g)))
             L.accA.append(mA)
-            L.accG.append(mG)
+            if mG:
+                L.accG.append(mG)
         if self.in_hook and self.mini % self.accumulation == 0:
             self._update_factors()
 
